@@ -979,9 +979,12 @@ def inverse_follows_transform(idx: ProgramIndex, rep: Report):
                 continue
             uses_transform = any(isinstance(x, ast.Name) and x.id == "transform" for x in ast.walk(node.value)) or \
                 any(isinstance(x, ast.Name) and x.id in _derived_from(base_init, "transform") for x in ast.walk(node.value))
+            tests = _guards_of(base_init.node, node)
+            # ... or the store is guarded by a comparison of the given transform with a registered one
+            if not uses_transform and any(any(isinstance(x, ast.Name) and x.id == "transform" for x in ast.walk(t)) and isinstance(t, ast.Compare) for t, pos in tests):
+                uses_transform = True
             if not uses_transform:
                 continue
-            tests = _guards_of(base_init.node, node)
             needs_none = any(_requires_none(t, pos, "inv_transform") for t, pos in tests)
             if not needs_none:
                 live = True
